@@ -1135,6 +1135,104 @@ def rule_cached_mutable_result(rep: Report, ix, sites) -> None:
     rep.floor("cached sites whose result type was inspected", n, FLOOR_SITES)
 
 
+
+# ----------------------------------------------------------------------------
+# (h) keys are computed from the current state / resolved objects; solver state does not leak between runs
+# ----------------------------------------------------------------------------
+def rule_fresh_keys_and_state(rep: Report, ix, km: ck.KeyModel) -> None:
+    """(h1) a `_cache_hash` hook recomputes its value at every call: a hook that stores its result on the object and hands
+    the stored value out again (memoisation) goes stale when nested state (axis / side objects, linked values) is changed
+    without passing through the owner's own mutators.  (h2) GridBase.make_operator hands the *resolved* operator info
+    (the result of get_operator_info, which carries the factory) to the cached back-end method, not the bare name: the
+    name alone does not tell two implementations registered under one name apart.  (h3) make_stepper methods of the
+    solver classes do not read entries of `self.info` that the same call has not written before: `info` survives from the
+    previous run of the solver object (last adaptive step, step counter), so reading it makes a run depend on history."""
+    # (h1)
+    n_h = 0
+    if km.hook:
+        for c in ix.all_classes():
+            for f in c.methods.get(km.hook, []):
+                n_h += 1
+                stores = {t.attr for st in ast.walk(f.node) if isinstance(st, (ast.Assign, ast.AnnAssign)) for t in ([st.target] if isinstance(st, ast.AnnAssign) else st.targets) if isinstance(t, ast.Attribute) and isinstance(t.value, ast.Name) and t.value.id == "self"}
+                rets = {r.value.attr for r in ast.walk(f.node) if isinstance(r, ast.Return) and isinstance(r.value, ast.Attribute) and isinstance(r.value.value, ast.Name) and r.value.value.id == "self"}
+                memo = sorted(stores & rets)
+                rep.oblige(f"hook-recomputed:{c.name}.{km.hook}", not memo, memo)
+                if memo:
+                    rep.violation(
+                        "C04.hook-memoised",
+                        f"{f.ref}::{memo[0]}",
+                        f"`{c.name}.{km.hook}` stores its value in `self.{memo[0]}` and returns the stored value on later calls: the key of every cache that uses it goes stale when the "
+                        "state it was computed from changes through nested objects (e.g. `bcs[0].low = ...`, `bcs['x'][0] = ...`), so a cached operator compiled for the old conditions is returned",
+                        line=f.node.lineno,
+                    )
+    rep.floor("`_cache_hash` hooks inspected for memoisation", n_h, 3)
+    # (h2)
+    f = ix.func("pde/grids/base.py", "GridBase.make_operator")
+    calls = [c for c in ast.walk(f.node) if isinstance(c, ast.Call) and isinstance(c.func, ast.Attribute) and c.func.attr == "make_operator" and not (isinstance(c.func.value, ast.Name) and c.func.value.id in ("grid", "self"))]
+    if len(calls) != 1:
+        raise AnalysisError(f"{f.ref}: expected exactly one call of the back-end's make_operator, found {len(calls)}")
+    call = calls[0]
+    arg = call.args[1] if len(call.args) > 1 else next((k.value for k in call.keywords if k.arg == "operator"), None)
+    resolved = False
+    if isinstance(arg, ast.Name):
+        defs = [st.value for st in ast.walk(f.node) if isinstance(st, ast.Assign) and any(isinstance(t, ast.Name) and t.id == arg.id for t in st.targets)]
+        resolved = bool(defs) and all(isinstance(d, ast.Call) and isinstance(d.func, ast.Attribute) and d.func.attr == "get_operator_info" for d in defs)
+    elif isinstance(arg, ast.Call) and isinstance(arg.func, ast.Attribute) and arg.func.attr == "get_operator_info":
+        resolved = True
+    rep.oblige("GridBase.make_operator keys the cached back-end operator by the resolved operator info", resolved, ast.unparse(arg) if arg is not None else None)
+    if not resolved:
+        rep.violation(
+            "C04.key-unresolved-name",
+            f"{f.ref}::backend-make_operator::operator",
+            f"the cached back-end method is called with `{ast.unparse(arg) if arg is not None else None}`, not with the result of get_operator_info(...): the cache key then holds only the operator's "
+            "name, so after another implementation is registered under that name the operator compiled for the old one is returned",
+            line=call.lineno,
+        )
+    # (h3)
+    n_s = 0
+    for rel, m in ix.modules.items():
+        if not rel.startswith("pde/solvers/"):
+            continue
+        for fi in m.functions.values():
+            if fi.node.name != "make_stepper" or fi.cls is None:
+                continue
+            n_s += 1
+            written: set[str] = set()
+            events = []
+            for st in ast.walk(fi.node):
+                if isinstance(st, ast.Assign):
+                    for t in st.targets:
+                        if isinstance(t, ast.Subscript) and ast.unparse(t.value) == "self.info" and isinstance(t.slice, ast.Constant):
+                            events.append((st.lineno, "w", t.slice.value, st))
+                for x in ast.walk(st) if isinstance(st, ast.stmt) else []:
+                    pass
+            for x in ast.walk(fi.node):
+                key = None
+                if isinstance(x, ast.Subscript) and isinstance(x.ctx, ast.Load) and ast.unparse(x.value) == "self.info" and isinstance(x.slice, ast.Constant):
+                    key = x.slice.value
+                elif isinstance(x, ast.Call) and isinstance(x.func, ast.Attribute) and x.func.attr in ("get", "pop", "setdefault") and ast.unparse(x.func.value) == "self.info" and x.args and isinstance(x.args[0], ast.Constant):
+                    key = x.args[0].value
+                if key is not None:
+                    events.append((x.lineno, "r", key, x))
+            events.sort(key=lambda e: (e[0], 0 if e[1] == "w" else 1))
+            nested = {id(y) for g in fi.nested() for y in ast.walk(g.node)}
+            for line, kind, key, node in events:
+                if id(node) in nested:
+                    continue
+                if kind == "w":
+                    written.add(key)
+                elif key not in written:
+                    rep.violation(
+                        "C04.solver-state-read",
+                        f"{fi.ref}::info[{key!r}]",
+                        f"`{ast.unparse(node)[:70]}` reads info[{key!r}] before this call has written it: the entry is whatever the previous run of this solver object left there "
+                        "(e.g. the last adaptive time step), so the new simulation depends on what was run before",
+                        line=line,
+                    )
+    rep.oblige("make_stepper methods read no solver info left by a previous run", not any(x.rule == "C04.solver-state-read" for x in rep.findings), n_s)
+    rep.floor("make_stepper methods of solver classes", n_s, 2)
+
+
 def check(tier: str) -> Report:
     rep = Report("C04", tier, "other", "cache-key composition read from tools/cache.py + class index; interprocedural address-capture tracking; re-bind/invalidation rule")
     rep.explanation = (
@@ -1238,6 +1336,7 @@ def check(tier: str) -> Report:
     rule_shared_containers(rep, ix, facts)
     rule_numeric_hash(rep, ix, km, ka, facts, site_atoms)
     rule_cached_mutable_result(rep, ix, sites)
+    rule_fresh_keys_and_state(rep, ix, km)
 
     rep.assumptions += [
         "annotations describe the argument types (values smuggled through Any/**kwargs are listed as unclassified notes)",
